@@ -35,7 +35,9 @@ def bbox_intersections(seta, setb):
         bounds = b.bounds()
         instructions.append((bounds.left, b, bounds, add_to, active_b))
         instructions.append((bounds.right, b, bounds, remove_from, active_b))
-    instructions = sorted(instructions, key=lambda i: i[0])
+    # Where several things happen at the same x, add before removing: boxes
+    # which only touch in x do overlap
+    instructions = sorted(instructions, key=lambda i: (i[0], i[3] is remove_from))
     for key, o, bounds, verb, activelist in instructions:
         verb(o, bounds, activelist)
     return intersections
